@@ -2,6 +2,7 @@ import GoflowModel.Driver.Util
 import GoflowModel.Basic.Tables
 import GoflowModel.ContactQL.Ast
 import GoflowModel.ContactQL.Lexer
+import GoflowModel.ContactQL.Parser
 import GoflowModel.Gen.Grammar
 namespace GoflowModel.Driver.CQL
 open GoflowModel Driver ContactQL
@@ -69,7 +70,31 @@ def evalNumbered (bits : List Char) (n : Node) : Bool :=
 
 def bitsOf (s : String) : List Bool := s.toList.map (· == '1')
 
+def kindOf : String → Option TokKind
+  | "LP" => some .lparen | "RP" => some .rparen | "AND" => some .and | "OR" => some .or | "CMP" => some .comparator
+  | "STR" => some .string | "PROP" => some .property | "TEXT" => some .text | "ERR" => some .error | _ => none
+
+def tokOf (s : String) : Option Tok :=
+  match s.splitOn ":" with
+  | [k, h] => do some ⟨← kindOf k, ← decL h⟩
+  | _ => none
+
+/-- `qparse <attribute names> <URN schemes> KIND:hex …` → the simplified tree | `nil` | `err`.  Implicit conditions come out as
+the placeholder attribute `?` (the harness sends none). -/
+def qparse (attrs schemes : List (List Char)) (toks : List Tok) : String :=
+  let env : PEnv := { isAttr := fun k => attrs.contains k, isScheme := fun k => schemes.contains k,
+                      implicit := fun v => ⟨.attr, ['?'], .eq, v⟩, lower := Tables.asciiLower }
+  match parseQuery env toks with
+  | none => "err"
+  | some none => "nil"
+  | some (some n) => showNode n
+
 def handle : List String → Option String
+  | "qparse" :: attrs :: schemes :: toks => do
+    let attrs ← decList attrs
+    let schemes ← decList schemes
+    let toks ← toks.mapM tokOf
+    some (qparse attrs schemes toks)
   | ["qlex", s] => do
     let s ← decL s
     let toks := lexAll cls s
